@@ -233,7 +233,25 @@ def markups(tc: bool, bodies: list[str], lits: list[str]):
                 yield {"k": k, "f": list(f), "body": b}
 
 
+# text that looks like the start of markup but never closes: with shorthand comments off "{#" is ordinary text anyway; with them on, an
+# opener that no "#}" follows opens nothing either.  (No shorthand comment may follow in the same source: its "#}" would close it.)
+OPENER_TEXTS = ["a  {#- b", "a \n{#-", "a  {# b ", "{#- b", "a {#-} b", "a  {#-#", "x \t{#--", "a  {# b } c"]
+
+
+def unclosed_opener_cases():
+    for tc in (False, True):
+        ms = [m for m in markups(False, ["", " x "], ["L"]) if m["k"] != "tcomment"]
+        for text in OPENER_TEXTS:
+            yield {"segs": [text], "tc": tc}
+            for m in ms:
+                yield {"segs": [" p ", m, text], "tc": tc}
+                yield {"segs": [" p ", m, " q ", dict(m), text], "tc": tc}
+
+
 def cases(ctx: core.Ctx):
+    for gi, c in enumerate(unclosed_opener_cases()):
+        if gi % ctx.nshards == ctx.shard:
+            yield c
     rng = ctx.rng("cases")
     idx = 0
     for tc in (False, True):
